@@ -101,6 +101,12 @@ pub struct Case {
     /// state variation: with / without pre-existing allowance for the counterparty, extra balance
     pub with_allowance_for_counterparty: bool,
     pub amount: u8,
+    /// the grantor (counterparty) never approved the named spender: delegated spends must fail for everybody
+    #[serde(default)]
+    pub without_grantor_allowance: bool,
+    /// the named address is the token's owner (and therefore a minter)
+    #[serde(default)]
+    pub named_is_token_owner: bool,
 }
 
 struct W<'a> {
@@ -128,7 +134,13 @@ fn build<'a>(case: &Case, named_is_probe: bool) -> W<'a> {
     let target = env.register(Target, ());
     let example_id = env.register(Example, (&s.gw.address, &s.gas.address));
     let example = ExampleClient::new(&env, &example_id);
-    let named = if named_is_probe { probe_id.clone() } else { s.pool[EXTRA_A].clone() };
+    let named = if named_is_probe {
+        probe_id.clone()
+    } else if case.named_is_token_owner {
+        s.pool[TOKEN_OWNER].clone()
+    } else {
+        s.pool[EXTRA_A].clone()
+    };
     let counterparty = s.pool[EXTRA_B].clone();
     // balances
     s.token.mint(&named, &1000);
@@ -137,7 +149,9 @@ fn build<'a>(case: &Case, named_is_probe: bool) -> W<'a> {
     s.fund(&counterparty, 1000);
     // allowances: counterparty -> named (so that delegated spends by `named` are possible)
     let exp = env.ledger().sequence() + 500;
-    s.token.approve(&counterparty, &named, &500, &exp);
+    if !case.without_grantor_allowance {
+        s.token.approve(&counterparty, &named, &500, &exp);
+    }
     if case.with_allowance_for_counterparty {
         // and the other way round: the counterparty holds an allowance from `named`
         s.token.approve(&named, &counterparty, &500, &exp);
@@ -295,7 +309,7 @@ impl Property for C07 {
         "C07"
     }
     fn rule(&self) -> &'static str {
-        "every case = (one of 17 entry points that debit / burn / pay gas from / send as / consume for / deploy under the name of / execute as an operator a named address: token approve, transfer, transfer_from, burn, burn_from, mint_from; gas pay_gas, add_gas; gateway call_contract, validate_message; ITS deploy_interchain_token, deploy_remote_interchain_token, interchain_transfer (burn and lock paths), deploy_remote_canonical_token; operators execute; example send) x (one of 8 authoriser classes: the named address, its counterparty (recipient / allowance grantor / sender), the owner of the called contract, a stranger, nobody, the named address for other arguments, a contract naming itself without entries, a contract naming another address) x world state (with / without an allowance held by the counterparty; amount 1..40). The full 17x8 matrix is enumerated in every run for both allowance states; proptest samples amounts. Engine: the authorisation trees (incl. nested burn / gas-payment nodes) are recorded in a twin world with all auths mocked and replayed in a fresh identical world signed by exactly one principal. Oracle: success iff the named address authorised (or is the directly calling contract); every refusal leaves the ledger snapshot identical. non-trivial = authoriser is not simply the named address; distinct by Debug hash"
+        "every case = (one of 17 entry points that debit / burn / pay gas from / send as / consume for / deploy under the name of / execute as an operator a named address: token approve, transfer, transfer_from, burn, burn_from, mint_from; gas pay_gas, add_gas; gateway call_contract, validate_message; ITS deploy_interchain_token, deploy_remote_interchain_token, interchain_transfer (burn and lock paths), deploy_remote_canonical_token; operators execute; example send) x (one of 8 authoriser classes: the named address, its counterparty (recipient / allowance grantor / sender), the owner of the called contract, a stranger, nobody, the named address for other arguments, a contract naming itself without entries, a contract naming another address) x world state (with / without an allowance held by the counterparty; with / without the grantor's allowance for delegated spends; named address = an ordinary account or the token's owner/minter; amount 1..40). The full 17x8 matrix is enumerated in every run for both allowance states; proptest samples amounts. Engine: the authorisation trees (incl. nested burn / gas-payment nodes) are recorded in a twin world with all auths mocked and replayed in a fresh identical world signed by exactly one principal. Oracle: success iff the named address authorised (or is the directly calling contract); every refusal leaves the ledger snapshot identical. non-trivial = authoriser is not simply the named address; distinct by Debug hash"
     }
     fn fixed_is_exhaustive(&self) -> Option<&'static str> {
         Some("entry-point x authoriser matrix (17 x 8) x {with,without} counterparty allowance enumerated completely; amounts sampled")
@@ -304,8 +318,15 @@ impl Property for C07 {
         tier.pick(3000, 40000)
     }
     fn strategy(&self, _tier: Tier) -> BoxedStrategy<Case> {
-        (prop::sample::select(EPS.to_vec()), prop::sample::select(PRINCIPALS.to_vec()), any::<bool>(), 1u8..40)
-            .prop_map(|(ep, principal, with_allowance_for_counterparty, amount)| Case { ep, principal, with_allowance_for_counterparty, amount })
+        (prop::sample::select(EPS.to_vec()), prop::sample::select(PRINCIPALS.to_vec()), any::<bool>(), 1u8..40, prop_oneof![3 => Just(false), 1 => Just(true)], prop_oneof![3 => Just(false), 1 => Just(true)])
+            .prop_map(|(ep, principal, with_allowance_for_counterparty, amount, without_grantor_allowance, named_is_token_owner)| Case {
+                ep,
+                principal,
+                with_allowance_for_counterparty,
+                amount,
+                without_grantor_allowance,
+                named_is_token_owner,
+            })
             .boxed()
     }
     fn fixed_cases(&self, _tier: Tier) -> Vec<Case> {
@@ -313,7 +334,15 @@ impl Property for C07 {
         for ep in EPS {
             for p in PRINCIPALS {
                 for al in [false, true] {
-                    v.push(Case { ep, principal: p, with_allowance_for_counterparty: al, amount: 3 });
+                    v.push(Case { ep, principal: p, with_allowance_for_counterparty: al, amount: 3, without_grantor_allowance: false, named_is_token_owner: false });
+                }
+                // the named address is the token owner / a minter
+                v.push(Case { ep, principal: p, with_allowance_for_counterparty: false, amount: 3, without_grantor_allowance: false, named_is_token_owner: true });
+                if matches!(ep, Ep::TokTransferFrom | Ep::TokBurnFrom) {
+                    // no allowance from the grantor: nobody's authorisation is enough
+                    for owner in [false, true] {
+                        v.push(Case { ep, principal: p, with_allowance_for_counterparty: false, amount: 3, without_grantor_allowance: true, named_is_token_owner: owner });
+                    }
                 }
             }
         }
@@ -339,6 +368,14 @@ impl Property for C07 {
                 let env = &w.s.env;
                 let inv = invocation(&w, ep, amount, false);
                 env.set_auths(&[]);
+                if case.without_grantor_allowance && matches!(ep, Ep::TokTransferFrom | Ep::TokBurnFrom) {
+                    cx.count("must_fail");
+                    cx.label("delegated_without_allowance");
+                    let snap0 = snapshot(env);
+                    ensure_p!(!call_via_probe(&w, &inv), "{:?}: a delegated spend by a contract succeeded although the holder never granted an allowance", ep);
+                    ensure_p!(snapshot(env) == snap0, "{:?}: refused call changed state", ep);
+                    return Ok(());
+                }
                 cx.count("must_succeed");
                 ensure_p!(call_via_probe(&w, &inv), "{:?}: a contract calling for itself was refused", ep);
                 Ok(())
@@ -352,6 +389,32 @@ impl Property for C07 {
                 let ev0 = events_len(env);
                 cx.count("must_fail");
                 ensure_p!(!call_via_probe(&w, &inv), "{:?}: a contract acted for another address without that address's authorisation", ep);
+                ensure_p!(snapshot(env) == snap0 && events_len(env) == ev0, "{:?}: refused call changed state", ep);
+                Ok(())
+            }
+            _ if case.without_grantor_allowance && matches!(ep, Ep::TokTransferFrom | Ep::TokBurnFrom) => {
+                // The grantor never approved the spender: the holder's consent is missing, so the
+                // delegated spend must fail whoever signs (the call cannot be recorded: it fails).
+                cx.label("delegated_without_allowance");
+                let w = build(case, false);
+                let env = &w.s.env;
+                let inv = invocation(&w, ep, amount, false);
+                let principal: Option<Address> = match case.principal {
+                    Principal::Named | Principal::NamedOtherArgs => Some(w.named.clone()),
+                    Principal::Counterparty => Some(w.counterparty.clone()),
+                    Principal::ContractOwner => Some(w.owner_of_called.clone()),
+                    Principal::Stranger => Some(w.s.pool[STRANGER].clone()),
+                    _ => None,
+                };
+                let entries = match &principal {
+                    Some(p) => vec![(p.clone(), auth::node(env, &inv.0, inv.1, &inv.2, vec![]))],
+                    None => vec![],
+                };
+                auth::install(env, &entries);
+                let snap0 = snapshot(env);
+                let ev0 = events_len(env);
+                cx.count("must_fail");
+                ensure_p!(!call_direct(&w, &inv), "{:?}: a delegated spend succeeded although the holder never granted an allowance (signed by {:?}, spender is token owner: {})", ep, case.principal, case.named_is_token_owner);
                 ensure_p!(snapshot(env) == snap0 && events_len(env) == ev0, "{:?}: refused call changed state", ep);
                 Ok(())
             }
@@ -385,7 +448,9 @@ impl Property for C07 {
                     None => vec![],
                 };
                 auth::install(env, &entries);
-                let expect_ok = case.principal == Principal::Named;
+                // decided by address, not by class: a class may coincide with the named address (e.g. the
+                // named address is the owner of the called contract)
+                let expect_ok = principal.as_ref() == Some(&w.named) && !other_args;
                 let snap0 = snapshot(env);
                 let ev0 = events_len(env);
                 let ok = call_direct(&w, &inv);
